@@ -394,9 +394,11 @@ def _open_relative_then_chdir(prop, paths, kw):
     decoy = os.path.join(d, "elsewhere")
     os.makedirs(decoy, exist_ok=True)
     for p in paths:
+        if os.path.getsize(p) > 1 << 16:  # same header, complemented data bytes (small files only)
+            continue
         with open(p, "rb") as fp:
             raw = fp.read()
-        if len(raw) <= 1 << 16:  # same header, complemented data bytes (small files only)
+        if len(raw) <= 1 << 16:
             from . import filgen
 
             try:
